@@ -343,6 +343,105 @@ class ReShim:
         return None
 
 
+def sym_float(s):
+    """float() of a symbolic string whose free characters are printable ASCII without letters and '_':
+    optional surrounding blanks, digits with at most one '.', at least one digit; anything else is a ValueError
+    (no exponent, no inf/nan, no digit grouping can arise without letters/underscore; a sign cannot either in the
+    callers modelled here, but is handled).  A free character that could be a letter or '_' is a ProxyLeak."""
+    s = s.strip() if isinstance(s, (SymStr, _str)) else s
+    if isinstance(s, _str):
+        return float(s)
+    if len(s) == 0:
+        raise ValueError('could not convert string to float')
+    letters = [ch for ch in s.c if isinstance(ch, _str) and ch.isalpha()]
+    if letters:
+        # free characters are never letters, so with concrete letters present the text is a float only as
+        # [sign](inf|infinity|nan) (all letters after the first character) or as an exponent form (single letter e/E)
+        free = [k for k, ch in enumerate(s.c) if not isinstance(ch, _str)]
+        low = [ch.lower() for ch in letters]
+        if any(ch not in 'einftya' for ch in low):
+            raise ValueError('could not convert string to float')
+        if 'e' in low and len(low) > 1:
+            raise ValueError('could not convert string to float')
+        if 'e' not in low:
+            if len(free) > 1 or free[0] >= 1 or ''.join(s.c[1:]).lower() not in ('inf', 'infinity', 'nan'):
+                raise ValueError('could not convert string to float')
+            if bool(SymBool(z3.Or(s.c[0].t == 43, s.c[0].t == 45))):
+                raise core.NonFiniteLift('inf/nan literal')
+            raise ValueError('could not convert string to float')
+        ie = [k for k, ch in enumerate(s.c) if isinstance(ch, _str) and ch in 'eE'][0]
+        if ie == 0 or ie == len(s.c) - 1:
+            raise ValueError('could not convert string to float')      # an exponent form needs digits on both sides of the e
+        raise core.ProxyLeak('float() of a symbolic string that may be an exponent-form or inf/nan literal is not modelled')
+    num = None          # z3 Int term of all digits read
+    scale = 0           # digits after the point
+    seen_point = False
+    ndig = 0
+    sign = 1
+    txt = []            # the literal as resolved on this path, while every digit read is concrete
+    for k, ch in enumerate(s.c):
+        if isinstance(ch, _str):
+            if ch.isdigit() and ch.isascii():
+                d = z3.IntVal(int(ch))
+                if txt is not None:
+                    txt.append(ch)
+            elif ch == '.':
+                d = None
+            elif ch in '+-' and k == 0:
+                sign = -1 if ch == '-' else 1
+                continue
+            elif ch == '_':
+                raise core.ProxyLeak('float() of a symbolic string with a concrete underscore is not modelled')
+            else:
+                raise ValueError('could not convert string to float')
+        else:
+            t = ch.t
+            if bool(SymBool(z3.Or(z3.And(t >= 65, t <= 90), z3.And(t >= 97, t <= 122), t == 95, t < 32, t > 126))):
+                raise core.ProxyLeak('float() of a symbolic string whose free character may be a letter, underscore or non-printable')
+            if bool(SymBool(z3.And(t >= 48, t <= 57))):
+                d = t - 48
+                txt = None
+            elif bool(SymBool(t == 46)):
+                d = None
+            elif k == 0 and bool(SymBool(z3.Or(t == 43, t == 45))):
+                sign = SymInt(z3.If(t == 45, -1, 1))
+                continue
+            else:
+                raise ValueError('could not convert string to float')
+        if d is None:
+            if seen_point:
+                raise ValueError('could not convert string to float')
+            seen_point = True
+            if txt is not None:
+                txt.append('.')
+        else:
+            num = d if num is None else num * 10 + d
+            ndig += 1
+            if seen_point:
+                scale += 1
+    if ndig == 0:
+        raise ValueError('could not convert string to float')
+    if txt is not None and isinstance(sign, int):
+        return sign * float(''.join(txt))          # no free digit: the ordinary binary64 literal
+    val = core.SymReal(z3.ToReal(num) / z3.RealVal(10 ** scale)) if scale else core.SymReal(z3.ToReal(num))
+    return val * sign if sign != 1 or not isinstance(sign, int) else val
+
+
+class _FloatSMeta(type):
+    def __instancecheck__(cls, obj):
+        return isinstance(obj, (float, core.SymReal))
+
+
+class FloatS(float, metaclass=_FloatSMeta):
+    """stand-in for the name ``float`` in a module that converts (possibly symbolic) text to numbers"""
+
+    def __new__(cls, x=0.0):
+        if isinstance(x, SymStr):
+            return sym_float(x)
+        from . import stubs
+        return stubs.Float(x)
+
+
 class _StrMeta(type):
     def __instancecheck__(cls, o):
         return isinstance(o, (_str, SymStr))
